@@ -1711,8 +1711,10 @@ def do_conf_str_meson(src: str, data: T.List[str], confdata: 'ConfigurationData'
             confdata_useless = False
             eol = line[len(line.rstrip('\r\n')):]
             line = do_define_meson(regex, line, confdata, subproject)
-            # Keep the line ending of the template line (including none at the end of the file)
-            line = line[:-1] + eol
+            # Keep the line ending of the template line (a define on an
+            # unterminated last line still gets a newline)
+            if eol:
+                line = line[:-1] + eol
         else:
             if re.search(r'#\s*cmakedefine', line):
                 raise MesonException(f'Format error in {src}: saw "{line.strip()}" when format set to "meson"')
@@ -1748,8 +1750,10 @@ def do_conf_str_cmake(src: str, data: T.List[str], confdata: 'ConfigurationData'
             eol = line[len(line.rstrip('\r\n')):]
             line, missing = do_define_cmake(line, confdata, at_only, subproject)
             missing_variables.update(missing)
-            # Keep the line ending of the template line (including none at the end of the file)
-            line = line[:-1] + eol
+            # Keep the line ending of the template line (a define on an
+            # unterminated last line still gets a newline)
+            if eol:
+                line = line[:-1] + eol
         else:
             if '#mesondefine' in line:
                 raise MesonException(f'Format error in {src}: saw "{line.strip()}" when format set to "{variable_format}"')
